@@ -1,5 +1,6 @@
 import LhasaV.Lemmas.StreamProps
 import LhasaV.Lemmas.ToolKinds
+import LhasaV.Lemmas.ToolKindsMore
 /-!
 # C16 — same members from file, pipe or callbacks, and after any self-extractor prefix
 
@@ -113,5 +114,64 @@ theorem listing_kind_independent (k : Stream.Kind) (vl vo : Bool) (quiet now mti
     (archive : Array UInt8) :
     listingK k vl vo quiet now mtime filters archive = listingK .seekable vl vo quiet now mtime filters archive :=
   ToolKinds.listing_kind_independent k vl vo quiet now mtime filters archive
+
+open ToolKinds Extract Messages in
+/-- **Any prefix the scan passes over** (`PrefixShifts P A`: the scan of `P ++ A` finds the header the
+scan of `A` finds, `|P|` later — clean stubs, stub + SFX marker + decoy, …): every command on `P ++ A`
+from any kind of source behaves as on `A` from any other. `tool_prefix_transparent` and
+`tool_decoy_transparent` are instances. -/
+theorem tool_shift_transparent (k k' : Stream.Kind) (P A : Array UInt8) (h : PrefixShifts P.toList A.toList)
+    (o : Opts) (fs : Fs.St) (answers : Bytes) (cmd : Messages.Cmd) :
+    XAgree (runK k (P ++ A) o fs answers) (runK k' A o fs answers) ∧
+    printK k (P ++ A) o = printK k' A o ∧
+    MAgree (mrunK cmd k (P ++ A) o fs answers) (mrunK cmd k' A o fs answers) ∧
+    headersK k (P ++ A) = headersK k' A :=
+  ToolKinds.tool_shift_transparent k k' P A h o fs answers cmd
+
+open ToolKinds Extract Messages in
+/-- the `decoy_skipped` prefix (stub, SFX marker, the decoy signature it announces) at tool level -/
+theorem tool_decoy_transparent (k k' : Stream.Kind) (P A : Array UInt8) (m d : Nat)
+    (hmd : m < d) (hd : d < P.toList.length)
+    (hmark : markAt (P.toList ++ A.toList) m) (hsig : sigAt (P.toList ++ A.toList) d)
+    (hnosig : ∀ j, j < P.toList.length → j ≠ d → ¬ sigAt (P.toList ++ A.toList) j)
+    (hnomark : ∀ j, m < j → j < P.toList.length → ¬ markAt (P.toList ++ A.toList) j)
+    (hreach : FirstInReach P.toList A.toList)
+    (o : Opts) (fs : Fs.St) (answers : Bytes) (cmd : Messages.Cmd) :
+    XAgree (runK k (P ++ A) o fs answers) (runK k' A o fs answers) ∧
+    printK k (P ++ A) o = printK k' A o ∧
+    MAgree (mrunK cmd k (P ++ A) o fs answers) (mrunK cmd k' A o fs answers) ∧
+    headersK k (P ++ A) = headersK k' A :=
+  ToolKinds.tool_decoy_transparent k k' P A m d hmd hd hmark hsig hnosig hnomark hreach o fs answers cmd
+
+open ToolKinds in
+/-- **which prefixes are passed over**, for an archive that starts with a header: exactly those in
+which the scan of `P` ALONE finds nothing and leaves no decoy pending (given that the last 12
+offsets of `P` start no signature or marker and `P` is shorter than the scan limit) -/
+theorem prefix_passed_over_iff {P A : List UInt8}
+    (htail : ∀ j, P.length - 12 ≤ j → j < P.length → ¬ sigAt (P ++ A) j ∧ ¬ markAt (P ++ A) j)
+    (hsig : sigAt A 0) (hA : 12 < A.length) (hlen : P.length < scanLimit) :
+    PrefixShifts P A ↔ (firstHeader P = none ∧ pendingDecoy P = 0) :=
+  ToolKinds.shifts_iff_scan htail hsig hA hlen
+
+open ToolKinds ExtractTree ArchiveOf PrintList Extract ListOut ListProps in
+/-- **A self-extracting archive read from standard input extracts to exactly the tree it encodes**
+(C16 ∘ C06 ∘ C19): for a passed-over prefix `P` and the bytes `archiveWith pk es` of a well-formed
+encodable tree, from ANY kind of source: `lha x` leaves exactly `treeOf es`, `lha p` prints exactly
+the selected files after their banners, every listing is head ++ rows of the selected entries ++
+their totals. -/
+theorem sfx_archive_end_to_end (k : Stream.Kind) (P : Array UInt8) (pk : Packer) (es : List Entry)
+    (hwf : WellFormed es) (henc : Encodable es) (hpk : Packs pk es)
+    (hP : PrefixShifts P.toList (archiveWith pk es).toList)
+    (o : Opts) (fs : Fs.St) (answers : Bytes) (ho : OptsOk o) (hfs : EmptyDir fs) (ha : Access fs)
+    (vl vo : Bool) (quiet now archiveMtime : Nat) (fl : List Bytes) :
+    ((runK k (P ++ archiveWith pk es) o fs answers).result = true ∧
+     ∀ p, p ≠ [] → Fs.lookup (runK k (P ++ archiveWith pk es) o fs answers).fs (fs.cwd ++ p) =
+       treeOf fs.now fs.umask es p) ∧
+    printK k (P ++ archiveWith pk es) o = (es.filter (selected o.filters)).flatMap (printSeg o) ∧
+    listingK k vl vo quiet now archiveMtime fl (P ++ archiveWith pk es) = .ok
+      (listHead vl vo quiet ++
+       (es.filter (selected fl)).flatMap (fun e => printColumns (columnsFor vl vo) now (hdrOf pk e)) ++
+       listTail vl vo quiet now (totalsOf pk archiveMtime (es.filter (selected fl)))) :=
+  ToolKinds.sfx_archive_end_to_end k P pk es hwf henc hpk hP o fs answers ho hfs ha vl vo quiet now archiveMtime fl
 
 end LhasaV.Props.C16
